@@ -49,9 +49,11 @@ for mid, prop, desc, res, cls in rows:
 caught = sum(1 for r in rows if r[3]=='CAUGHT'); killed = sum(1 for r in rows if r[3].startswith('killed')); missed=[r[0] for r in rows if r[3]=='missed']
 out += ["", f"Summary: {caught} caught, {killed} already killed by the repository's own tests, {len(missed)} not reported ({', '.join(missed)}) — each of those is explained in the table (equivalent change, or outside the claimed properties).\n",
 "## 3. Silence on the pristine tree\n",
-"`sensitivity/silence.txt` (produced by `tools/silence.sh` with the final checks): every check over 100 different `VERIF_SEED` values",
-"(300..399, a tenth of the quick budget each) on the unchanged tree: no VIOLATION line, exit 0 every time.  Earlier versions of the",
-"checks were run the same way over seeds 100..199 and 200..299, and the thorough tier over seeds 7, 11, 21, 31, 41, 51 (earlier versions; the only alarm was the C05 false alarm of DESIGN.md 7 correction 7, at seed 21) and 71, 81 (final checks): silent.",
+"`sensitivity/silence.txt` (produced by `tools/silence.sh` with the final checks): every check over 60 different `VERIF_SEED` values",
+"(400..459, a tenth of the quick budget each) on the unchanged tree: no VIOLATION line, exit 0 every time; the thorough tier of all",
+"eight checks at seed 91: silent (C17 including its Miri layer, 24 executions).  Earlier versions of the checks were run the same way",
+"over seeds 100..199, 200..299 and 300..399 (100 seeds each, all silent), and the thorough tier over seeds 7, 11, 21, 31, 41, 51, 71, 81",
+"(the only alarm ever was the C05 false alarm of DESIGN.md 7 correction 7, at seed 21, corrected since).",
 "`sensitivity/determinism.txt` (`tools/determinism.sh 512`): plan digests and history digests identical across six executions per",
 "property at worker counts 1, 4, 16, 16, 4, 1.\n"]
 open(V + '/SENSITIVITY.md','w').write("\n".join(out))
